@@ -10,10 +10,10 @@ extern "C" {
 #include "a/utf.h"
 }
 
-enum { L_REALLOC, L_FMT_EXACT_FIT, L_FMT_GROW, L_TRIM_EMPTIES, L_EXIT_FULL, L_EXIT, L_NUL_BYTE, L_HIGH_BYTE, L_UTF, L_SETN_GROW, L_SWAP, L_CMP, L_LEN_EQ_MEM, L_FAULT_HIT, L_FAULT_LATE, L_CAT_OTHER, L_GETN, L_LEN64, L_BIG_RESERVE, L_ACCESSORS };
+enum { L_REALLOC, L_FMT_EXACT_FIT, L_FMT_GROW, L_TRIM_EMPTIES, L_EXIT_FULL, L_EXIT, L_NUL_BYTE, L_HIGH_BYTE, L_UTF, L_SETN_GROW, L_SWAP, L_CMP, L_LEN_EQ_MEM, L_FAULT_HIT, L_FAULT_LATE, L_CAT_OTHER, L_GETN, L_LEN64, L_BIG_RESERVE, L_ACCESSORS, L_FMT_FAILS };
 static char const *const labels[] = {"reallocation", "catf_exactly_fills_spare_capacity", "catf_reallocates", "trim_empties_string", "exit_with_len_eq_mem", "exit",
                                      "nul_byte_in_content", "byte_ge_0x80", "utf_catc", "setn_grows_length", "swap", "compare", "len_eq_mem_state",
-                                     "fault_hit_library_request", "fault_not_in_first_op", "cat_other_string", "getn", "len_ge_64", "reserve_ge_200_up_to_64KiB", "index_accessors_utf_len_raw_compare", nullptr};
+                                     "fault_hit_library_request", "fault_not_in_first_op", "cat_other_string", "getn", "len_ge_64", "reserve_ge_200_up_to_64KiB", "index_accessors_utf_len_raw_compare", "catf_conversion_refused_by_the_formatter", nullptr};
 static char const *const metrics[] = {"max_len", "faulty_executions", nullptr};
 static uint8_t const dict[] = {0x20, 0x09, 0x0A, 0x25, 0x73, 0xC3, 0xE2, 0xF0};
 #ifdef VP_FAULT
@@ -151,6 +151,8 @@ struct Fmt
     double d1 = 0;
     int prec = 0;
     char ch = 'x';
+    unsigned wc = 'w';
+    wchar_t ws[4] = {L'a', L'b', 0, 0};
 };
 static int call_ref(char *buf, size_t n, Fmt const &f)
 {
@@ -166,6 +168,11 @@ static int call_ref(char *buf, size_t n, Fmt const &f)
     case 7: return snprintf(buf, n, "%g", f.d1);
     case 8: return snprintf(buf, n, "id=%d-%s;", f.i1, f.str.c_str());
     case 9: return snprintf(buf, n, "%s", "");
+    // conversions the C formatter refuses in the "C" locale (a wide character it cannot encode): it returns a negative value,
+    // at once (11), after having produced part of the output (12), or inside a wide string (13)
+    case 11: return snprintf(buf, n, "%lc", (wint_t)f.wc);
+    case 12: return snprintf(buf, n, "%s%lc<", f.str.c_str(), (wint_t)f.wc);
+    case 13: return snprintf(buf, n, "%d:%ls", f.i1, f.ws);
     default: return snprintf(buf, n, "[%08.3f|%-6d|%+ld]", f.d1, f.i1, long(f.u1));
     }
 }
@@ -183,6 +190,9 @@ static int call_liba(a_str *s, Fmt const &f)
     case 7: return a_str_catf(s, "%g", f.d1);
     case 8: return a_str_catf(s, "id=%d-%s;", f.i1, f.str.c_str());
     case 9: return a_str_catf(s, "%s", "");
+    case 11: return a_str_catf(s, "%lc", (wint_t)f.wc);
+    case 12: return a_str_catf(s, "%s%lc<", f.str.c_str(), (wint_t)f.wc);
+    case 13: return a_str_catf(s, "%d:%ls", f.i1, f.ws);
     default: return a_str_catf(s, "[%08.3f|%-6d|%+ld]", f.d1, f.i1, long(f.u1));
     }
 }
@@ -319,10 +329,20 @@ static void run_history(Tape &t, Ctx &cx, uint64_t fail_at, int mode, uint64_t *
             break; }
         case 5: case 15: {
             Fmt f;
-            f.id = t.u8() % 11;
+            {
+                uint8_t ib = t.u8();
+                f.id = ib % 11;
+                if (ib >= 242)
+                {
+                    f.id = 11 + (ib - 242) % 3;
+                    // mostly a character the "C" locale cannot encode, sometimes one it can (then the template is an ordinary one)
+                    f.wc = (ib & 1) ? 0x20ACu : (ib % 5 == 0 ? unsigned('!') : 0xE9u);
+                    f.ws[2] = wchar_t(f.wc);
+                }
+            }
             size_t len = a_str_len(s.s), mem = a_str_mem(s.s);
             size_t spare = mem - len;
-            if (f.id == 0 || f.id == 1 || f.id == 8)
+            if (f.id == 0 || f.id == 1 || f.id == 8 || f.id == 12)
             {
                 size_t n;
                 switch (t.u8() % 6)
@@ -350,6 +370,17 @@ static void run_history(Tape &t, Ctx &cx, uint64_t fail_at, int mode, uint64_t *
                 uint64_t fb = g_shim.faults;
                 cx.log("s%d catf(template %d, %d bytes) len %zu mem %zu ...\n", si, f.id, want, len, mem);
                 int res = call_liba(s.s, f);
+                if (want < 0)
+                {
+                    // the formatter itself fails: nothing is appended, the value it returns is handed on, and a terminated string
+                    // stays terminated (the object is as it was, whatever the formatter wrote before giving up)
+                    cx.label(L_FMT_FAILS);
+                    r.nt = true;
+                    if (res == 0 && g_shim.faults > fb) { expect_fault(r, fb, "catf"); }
+                    else { VP_CHECK(cx, res < 0, "str:catf_return", "catf returned %d for a conversion the C formatter refuses (it returns %d; template %d)", res, want, f.id); }
+                    verify(r, s, "catf whose conversion fails");
+                    break;
+                }
                 if (res != want || (want == 0 && g_shim.faults > fb))
                 {
                     // 0 is the documented failure value
